@@ -256,7 +256,10 @@ def scenario_features(s):
             def kinds(c):
                 f["kinds"].add(c["k"])
                 if c["k"] == "element":
-                    if c["idx"]["v"] in [x["v"] for x in c["xs"]] + [c["y"]["v"]]:
+                    occ = [c["idx"]["v"], c["y"]["v"]] + [x["v"] for x in c["xs"]]
+                    # the same variable as index / right-hand side / array element (F16); repeated
+                    # array elements alone are harmless
+                    if c["idx"]["v"] in occ[1:] or c["y"]["v"] in occ[2:]:
                         f["element_alias"] = True
                 if isinstance(c.get("c"), dict) and "k" in c["c"]:
                     kinds(c["c"])
@@ -540,8 +543,8 @@ def check_C08(res, tier, seed):
 
 
 def check_C09(res, tier, seed):
-    # 20 kinds x 3 wrappings, index-driven; quick: 4 rounds, thorough: 40
-    tv_part(res, ["reif"], n(tier, 240, 2400), seed, tier, "reif", min_events={"IterSolution": 200},
+    # 20 kinds x 4 wrappings (implied_by, reify, negation, plain), index-driven; quick: 4 rounds
+    tv_part(res, ["reif"], n(tier, 320, 3200), seed, tier, "reif", min_events={"IterSolution": 200},
             adopt=adopt_for("C09"))
 
 
@@ -665,9 +668,24 @@ def check_C12(res, tier, seed):
     tv_part(res, ["solve", "history"], n(tier, 300, 3000), seed + 7, tier, "bounds", min_events={"Bounds": 200})
 
 
+EXH_KIND_TOTAL = 16 * 2 * 48 * 48
+
+
+def exh_kind_part(res, tier, seed, adopt=None):
+    """Exhaustive small scope for explanations: every ordered pair of decisions on one constraint
+    (see harness/src/gen.rs fam_exh_kind). thorough: a third of the space, quick: ~1/37 of it, both
+    rotated by the seed (strides coprime with 48 so that every predicate pair class is hit)."""
+    stride = 5 if tier == "thorough" else 37
+    rec = lambda d: record(["exh_kind"], seed, tier, EXH_KIND_TOTAL // stride, d,
+                           start=seed % stride, stride=stride)
+    tv_part(res, [], 0, seed, tier, "exh_kind", adopt=adopt, recorder=rec)
+
+
 def check_C17(res, tier, seed):
-    tv_part(res, ["solve"], n(tier, 400, 4000), seed + 17, tier, "solve", min_events={"Propagated": 50})
-    tv_part(res, ["cumulative", "reif", "clauses"], n(tier, 150, 1500), seed + 17, tier, "kinds")
+    exh_kind_part(res, tier, seed)
+    tv_part(res, ["solve"], n(tier, 200, 4000), seed + 17, tier, "solve", min_events={"Propagated": 50})
+    tv_part(res, ["reif"], n(tier, 160, 4800), seed + 17, tier, "kinds")
+    tv_part(res, ["cumulative", "clauses"], n(tier, 80, 1500), seed + 17, tier, "kinds2")
     tv_part(res, ["assume", "history", "optimise", "configs"], n(tier, 60, 600), seed + 17, tier, "multi")
 
 
@@ -737,3 +755,407 @@ def run_replay(res, path, tier, seed, level, t0):
 def selftest():
     log("selftest: not implemented yet")
     return 0
+
+
+# ====================================================================== command-line solver (C13, C14, C15)
+CLI_DIR = os.path.join(HARNESS, "target", "cli")
+CLI = os.path.join(CLI_DIR, "debug", "pumpkin-solver")
+_cli_built = False
+
+
+def build_cli():
+    """Builds the real command-line binary from /repo's working tree (guard off: it is the
+    program users run), into the harness' own target directory."""
+    global _cli_built
+    if _cli_built:
+        return
+    try:
+        head = subprocess.run(["git", "-C", "/repo", "rev-parse", "HEAD"], stdout=subprocess.PIPE, text=True).stdout
+        diff = subprocess.run(["git", "-C", "/repo", "diff", "HEAD"], stdout=subprocess.PIPE, text=True,
+                              errors="replace").stdout
+        state = hashlib.sha1((head + diff).encode()).hexdigest()
+    except Exception:
+        state = str(time.time())
+    marker = os.path.join(CLI_DIR, ".repo_state")
+    old = open(marker).read() if os.path.exists(marker) else ""
+    if old != state and os.path.isdir(CLI_DIR):
+        sh(["cargo", "clean", "--offline", "--target-dir", CLI_DIR, "-p", "pumpkin-solver", "-p", "drcp-format"],
+           cwd="/repo", timeout=300, check=False)
+    rc, out, dt = sh(["cargo", "build", "--offline", "--quiet", "-p", "pumpkin-solver", "--bin", "pumpkin-solver",
+                      "--target-dir", CLI_DIR], cwd="/repo", timeout=2400, check=False)
+    if rc != 0:
+        raise ToolError("building the command-line solver failed:\n" + out[-3000:])
+    os.makedirs(CLI_DIR, exist_ok=True)
+    with open(marker, "w") as f:
+        f.write(state)
+    _cli_built = True
+
+
+def run_cli(path, flags=(), timeout=30):
+    try:
+        p = subprocess.run([CLI, path] + list(flags), stdout=subprocess.PIPE, stderr=subprocess.PIPE, text=True,
+                           errors="replace", timeout=timeout)
+        return p.stdout, p.stderr, p.returncode
+    except subprocess.TimeoutExpired:
+        return "", "TIMEOUT", -9
+
+
+def panic_summary(stderr, stdout=""):
+    """the panic message of a crashed run (or the tail of its output)"""
+    m = re.search(r"panicked at ([^\n]*)\n([^\n]*)", stderr or "")
+    if m:
+        return ("panicked at %s: %s" % (m.group(1).strip(), m.group(2).strip()))[:300]
+    return ((stderr or "") + (stdout or ""))[-200:]
+
+
+def parse_sat_output(stdout):
+    status, model = "NONE", []
+    for line in stdout.splitlines():
+        line = line.strip()
+        if line.startswith("s "):
+            s = line[2:].strip()
+            status = {"SATISFIABLE": "SAT", "UNSATISFIABLE": "UNSAT", "OPTIMUM FOUND": "OPTIMUM",
+                      "UNKNOWN": "UNKNOWN"}.get(s, s)
+        elif line.startswith("v "):
+            model += [int(t) for t in line[2:].split() if t != "0"]
+    return status, model
+
+
+def parse_clause_lines(text):
+    """clause lines `l1 l2 ... 0` (proof files)"""
+    out, cur = [], []
+    for tok in text.split():
+        try:
+            v = int(tok)
+        except ValueError:
+            return None
+        if v == 0:
+            out.append(cur)
+            cur = []
+        else:
+            cur.append(v)
+    if cur:
+        return None
+    return out
+
+
+def cnf_layouts(nv, clauses, rng):
+    """Equivalent spellings of one formula: (name, text)."""
+    head = "p cnf %d %d\n" % (nv, len(clauses))
+    def cl(c, sep=" "):
+        return sep.join(str(x) for x in c + [0])
+    out = []
+    out.append(("plain", head + "".join(cl(c) + "\n" for c in clauses)))
+    out.append(("one-line", head + " ".join(cl(c) for c in clauses) + "\n"))
+    out.append(("split-after-literal", head + "".join("\n".join(str(x) for x in c + [0]) + "\n" for c in clauses)))
+    out.append(("split-trailing-space", head + "".join(" \n".join(str(x) for x in c + [0]) + "\n" for c in clauses)))
+    out.append(("comments-between", "c first\n" + head + "".join("c note %d\n%s\n" % (i, cl(c)) for i, c in enumerate(clauses))))
+    out.append(("comment-inside-after-literal",
+                head + "".join(("\nc inside\n".join(str(x) for x in c + [0]) + "\n") for c in clauses)))
+    out.append(("comment-inside-after-space",
+                head + "".join((" \nc inside 1 2 0\n".join(str(x) for x in c + [0]) + "\n") for c in clauses)))
+    out.append(("tabs-and-blanks", head + "".join("  \t" + cl(c, "\t ") + " \t\n\n" for c in clauses)))
+    out.append(("crlf", head.replace("\n", "\r\n") + "".join(cl(c) + "\r\n" for c in clauses)))
+    out.append(("no-final-newline", (head + "".join(cl(c) + "\n" for c in clauses)).rstrip("\n") if clauses else head))
+    # put a token across the 8 KiB boundary of the BufReader
+    body = "".join(cl(c) + "\n" for c in clauses)
+    for shift in (0, 1, 2):
+        pad = 8192 - len(head) - 2 - shift
+        out.append(("chunk-boundary-%d" % shift, head + "c" + "x" * max(pad - 1, 0) + "\n" + body))
+    return out
+
+
+def random_cnf(rng, nv_max, tier):
+    nv = rng.randint(1, nv_max)
+    kind = rng.random()
+    clauses = []
+    if kind < 0.1:
+        return nv, []                              # empty formula
+    ratio = rng.choice([2.0, 3.5, 4.3, 5.0, 6.0])
+    nc = max(1, int(ratio * nv * rng.uniform(0.5, 1.2)))
+    nc = min(nc, 60)
+    for _ in range(nc):
+        k = rng.choice([1, 2, 2, 3, 3, 3]) if nv >= 3 else rng.randint(1, max(1, nv))
+        c = []
+        for _ in range(k):
+            v = rng.randint(1, nv)
+            c.append(v if rng.random() < 0.5 else -v)      # duplicates / tautologies happen on purpose
+        clauses.append(c)
+    if rng.random() < 0.08:
+        clauses.insert(rng.randint(0, len(clauses)), [])   # the empty clause
+    if rng.random() < 0.15 and clauses:
+        clauses.append(list(clauses[0]))                   # duplicate clause
+    return nv, clauses
+
+
+def cli_trace_part(res, events, name, spec="Cli"):
+    """Validates CLI run events with TLC against spec/Cli.tla."""
+    d = workdir("%s_%s" % (res.prop, name))
+    trace = os.path.join(d, "t.ndjson")
+    with open(trace, "w") as f:
+        for i, e in enumerate(events):
+            e = dict(e)
+            e["i"] = i + 1
+            f.write(json.dumps(e) + "\n")
+    out = tlc_trace(trace, os.path.join(d, "meta"), spec=spec, timeout=2400)
+    findings = load_findings()
+    byid = {e["id"]: e for e in events}
+    for hit in out["mons"]:
+        ev = byid.get(hit["id"])
+        res.add_hit(hit, None, findings, extra={"event": ev})
+    if not out["accepted"]:
+        res.add_hit({"mon": "BIND.Rejected", "fam": "cli", "id": -1, "i": out.get("matched", 0) + 1,
+                     "w": out.get("unmatched", "")}, None, findings)
+    res.cov["states"] += out["states"]
+    res.cov["transitions"] += max(out["states"] - 1, 0)
+    res.cov["traces_validated_against_impl"] += len(events)
+    res.cov["evaluations"] += len(events)
+    res.cov["distinct_nontrivial"] += len({json.dumps({k: v for k, v in e.items() if k not in ("id", "i")},
+                                                      sort_keys=True) for e in events})
+    res.cov["parts"].append({"part": name, "kind": "cli-trace-validation", "runs": len(events),
+                             "accepted": out["accepted"], "tlc_wall_s": round(out["wall"], 1)})
+    if len(res.cov["samples"]) < 4 and events:
+        res.cov["samples"].append(events[0])
+        res.cov["samples"].append(events[len(events) // 2])
+    shutil.rmtree(os.path.join(d, "meta"), ignore_errors=True)
+    return out
+
+
+def check_C14(res, tier, seed):
+    import random
+    rng = random.Random(seed * 7919 + 14)
+    # (1) the byte automaton against the reference reading, exhaustively within the bound
+    mc_part(res, "MC_Dimacs", "MC_Dimacs_fixed", label="C14.MC.SameReading", workers=8, timeout=900)
+    mc_part(res, "MC_Dimacs", "MC_Dimacs", expect_ok=False, workers=8, timeout=900)   # the grammar as found must fail
+    build_cli()
+    d = workdir("C14_files")
+    events = []
+    eid = 0
+    # (2) every well-formed body TLC enumerates, through the real binary, with the clause list the
+    #     specification's reference reading expects
+    beh = os.path.join(d, "bodies.ndjson")
+    k, states, dt = tlc_generate("MC_Dimacs", "Gen_Dimacs_thorough" if tier == "thorough" else "Gen_Dimacs", beh)
+    res.cov["parts"].append({"part": "Gen_Dimacs", "kind": "behaviour-generation", "behaviours": k,
+                             "states": states, "tlc_wall_s": round(dt, 1)})
+    seen = set()
+    bodies = []
+    with open(beh) as f:
+        for line in f:
+            b = json.loads(line)
+            if b["body"] in seen:
+                continue
+            seen.add(b["body"])
+            bodies.append(b)
+    if tier != "thorough" and len(bodies) > 2500:
+        rng.shuffle(bodies)
+        bodies = bodies[:2500]
+    for b in bodies:
+        clauses = [[int(x) for x in c] for c in b["clauses"]]
+        nv = max([abs(x) for c in clauses for x in c] + [1])
+        path = os.path.join(d, "g%d.cnf" % eid)
+        with open(path, "w", newline="") as f:
+            f.write("p cnf %d %d\n" % (nv, len(clauses)) + b["body"])
+        so, se, rc = run_cli(path)
+        status, model = parse_sat_output(so)
+        events.append({"e": "CnfRun", "id": eid, "nv": nv, "clauses": clauses, "status": status, "model": model,
+                       "hasproof": False, "proof": [], "expect": "", "layout": "gen:" + repr(b["body"]),
+                       "stderr": panic_summary(se, so) if status == "NONE" else ""})
+        os.remove(path)
+        eid += 1
+    # (3) random and structured formulas in every layout, with and without a proof
+    def php(holes):
+        pig = holes + 1
+        var = lambda p, h: p * holes + h + 1
+        cs = [[var(p, h) for h in range(holes)] for p in range(pig)]
+        for h in range(holes):
+            for p in range(pig):
+                for q in range(p + 1, pig):
+                    cs.append([-var(p, h), -var(q, h)])
+        return pig * holes, cs
+
+    def hard3sat(nv, ratio):
+        cs = []
+        for _ in range(int(nv * ratio)):
+            vs = rng.sample(range(1, nv + 1), 3)
+            cs.append([v if rng.random() < 0.5 else -v for v in vs])
+        return nv, cs
+    structured = [php(2), php(3)] + [hard3sat(rng.randint(7, 10), rng.choice([4.5, 5.5, 7.0]))
+                                     for _ in range(n(tier, 25, 250))]
+    nform = n(tier, 60, 600)
+    for fi in range(nform + len(structured)):
+        if fi < len(structured):
+            nv, clauses = structured[fi]
+            rng.shuffle(clauses)
+        else:
+            nv, clauses = random_cnf(rng, 10 if tier == "thorough" else 8, tier)
+        layouts = cnf_layouts(nv, clauses, rng)
+        if tier != "thorough":
+            layouts = [layouts[0]] + rng.sample(layouts[1:], 4)
+        first = None
+        for name, text in layouts:
+            path = os.path.join(d, "f%d.cnf" % eid)
+            with open(path, "w", newline="") as f:
+                f.write(text)
+            proof_path = os.path.join(d, "f%d.proof" % eid)
+            flags = ["--proof-path", proof_path] if (name == "plain" or rng.random() < 0.3) else []
+            flags += rng.choice([[], ["--restart-base-interval", "1", "--restart-min-initial-conflicts", "0"],
+                                 ["--learning-max-num-clauses", "1", "--learning-lbd-threshold", "0"],
+                                 ["--no-learning-minimise"]])
+            so, se, rc = run_cli(path, flags)
+            status, model = parse_sat_output(so)
+            proof = None
+            if flags and flags[0] == "--proof-path" and os.path.exists(proof_path):
+                proof = parse_clause_lines(open(proof_path).read())
+            if first is None:
+                first = status
+            events.append({"e": "CnfRun", "id": eid, "nv": nv, "clauses": clauses, "status": status,
+                           "model": model, "hasproof": proof is not None and status == "UNSAT",
+                           "proof": proof or [], "expect": first, "layout": name,
+                           "stderr": panic_summary(se, so) if status == "NONE" else ""})
+            for pth in (path, proof_path):
+                if os.path.exists(pth):
+                    os.remove(pth)
+            eid += 1
+    cli_trace_part(res, events, "cnf")
+    res.cov["rule"] = ("(1) TLC explores the transcribed byte automaton in lock-step with a reference reading; "
+                       "(2) every well-formed file body TLC enumerates up to the bound is run through the real "
+                       "binary; (3) random CNF formulas are run in up to 13 equivalent layouts with and without "
+                       "--proof-path; every run is an event validated by TLC (models, verdicts, RUP of every lemma)")
+
+
+CHECKS["C14"] = (check_C14, "model_checking")
+
+
+def random_wcnf(rng, tier):
+    nv = rng.randint(1, 5 if tier != "thorough" else 7)
+    def clause(maxlen):
+        k = rng.randint(1, maxlen)
+        return [rng.choice([1, -1]) * rng.randint(1, nv) for _ in range(k)]
+    nh = rng.randint(0, 4)
+    ns = rng.randint(0, 5 if tier != "thorough" else 7)
+    hard = [clause(3) for _ in range(nh)]
+    unweighted = rng.random() < 0.35
+    soft = []
+    for _ in range(ns):
+        w = 1 if unweighted else rng.choice([1, 1, 2, 3, 5, 9, 10, 100])
+        lits = clause(3) if rng.random() < 0.7 else [rng.choice([1, -1]) * rng.randint(1, nv)]   # unit softs
+        soft.append({"w": w, "lits": lits})
+    if soft and rng.random() < 0.2 and not unweighted:
+        soft.append(dict(soft[0]))                      # duplicate soft clause
+    if rng.random() < 0.05 and not unweighted:
+        soft.append({"w": 4, "lits": []})               # empty soft clause: always falsified
+    if unweighted:
+        # the cardinality network needs unit coefficients: unit soft clauses over the same literal
+        # would be merged into one term of weight 2
+        seen, uniq = set(), []
+        for s_ in soft:
+            key = tuple(sorted(set(s_["lits"])))
+            if len(s_["lits"]) == 1 and key in seen:
+                continue
+            seen.add(key)
+            uniq.append(s_)
+        soft = uniq
+    if rng.random() < 0.3 and soft:
+        # a hard unit that decides a soft clause (placed before or after it by the shuffle below)
+        s = rng.choice(soft)
+        if s["lits"]:
+            hard.append([rng.choice([1, -1]) * s["lits"][0]])
+    if rng.random() < 0.1:
+        v = rng.randint(1, nv)
+        hard += [[v], [-v]]                             # hard clauses unsatisfiable
+    return nv, hard, soft, unweighted
+
+
+def wcnf_text(nv, hard, soft, rng):
+    top = sum(s["w"] for s in soft) + 1 + rng.choice([0, 0, 5, 1000])
+    lines = [("%d " % top) + " ".join(str(x) for x in c + [0]) for c in hard]
+    lines += [("%d " % s["w"]) + " ".join(str(x) for x in s["lits"] + [0]) for s in soft]
+    rng.shuffle(lines)
+    text = "p wcnf %d %d %d\n" % (nv, len(lines), top) + "\n".join(lines) + ("\n" if lines else "")
+    if rng.random() < 0.3:
+        text = "c generated\n" + text
+    return text
+
+
+def check_C15(res, tier, seed):
+    import random
+    rng = random.Random(seed * 104729 + 15)
+    build_cli()
+    d = workdir("C15_files")
+    events = []
+    eid = 0
+    pair = 0
+    for fi in range(n(tier, 250, 2500)):
+        nv, hard, soft, unweighted = random_wcnf(rng, tier)
+        text = wcnf_text(nv, hard, soft, rng)
+        pair += 1
+        encs = ["generalized-totalizer"] + (["cardinality-network"] if unweighted else [])
+        for enc in encs:
+            path = os.path.join(d, "w%d.wcnf" % eid)
+            with open(path, "w") as f:
+                f.write(text)
+            so, se, rc = run_cli(path, ["--upper-bound-encoding", enc])
+            status, model = parse_sat_output(so)
+            olines = []
+            for line in so.splitlines():
+                if line.startswith("o "):
+                    try:
+                        olines.append(int(line[2:].strip()))
+                    except ValueError:
+                        pass
+            events.append({"e": "WcnfRun", "id": eid, "nv": nv, "hard": hard, "soft": soft, "olines": olines,
+                           "status": status, "model": model, "enc": enc, "pair": pair if len(encs) == 2 else 0,
+                           "stderr": panic_summary(se, so) if status not in ("OPTIMUM", "UNSAT") else "",
+                           "text": text})
+            os.remove(path)
+            eid += 1
+    cli_trace_part(res, events, "wcnf")
+    res.cov["rule"] = ("random WCNF instances (unit / empty / duplicate soft clauses, hard units deciding soft clauses "
+                       "before or after them in the file, hard-unsatisfiable instances) are run through the real "
+                       "binary with both upper-bound encodings (the cardinality network on unweighted instances); "
+                       "TLC computes the minimum cost by enumeration and checks o-lines, status and model")
+
+
+CHECKS["C15"] = (check_C15, "model_checking")
+
+
+def check_C13(res, tier, seed):
+    import random
+    import fzn
+    rng = random.Random(seed * 15485863 + 13)
+    build_cli()
+    d = workdir("C13_files")
+    events = []
+    eid = 0
+    flagsets = [[], ["-a"], ["-f"], ["-a", "-f"]]
+    for mi in range(n(tier, 150, 1500)):
+        text, desc, outspec = fzn.generate(rng, tier)
+        path = os.path.join(d, "m%d.fzn" % mi)
+        with open(path, "w") as f:
+            f.write(text)
+        sets = flagsets if tier == "thorough" else [flagsets[mi % 4], flagsets[(mi + 1) % 4]]
+        for fl in sets:
+            flags = list(fl)
+            if desc["method"] == "optimise":
+                flags += ["--optimisation-strategy", rng.choice(["linear-sat-unsat", "linear-unsat-sat"])]
+            so, se, rc = run_cli(path, flags, timeout=60)
+            o = fzn.parse_output(so, outspec)
+            ev = dict(desc)
+            ev.update({"e": "FznRun", "id": eid, "blocks": o["blocks"], "complete": o["complete"],
+                       "unsat": o["unsat"], "all": "-a" in fl, "exit": rc if not o["garbage"] else (rc or 97),
+                       "stderr": (panic_summary(se) if rc != 0 else "") + " ".join(o["garbage"])[:200],
+                       "flags": flags, "text": text})
+            events.append(ev)
+            eid += 1
+        os.remove(path)
+    cli_trace_part(res, events, "fzn")
+    res.cov["programs"] = len(events)
+    res.cov["disagreements_checked"] = len(events)
+    res.cov["rule"] = ("FlatZinc models are generated from a description over the supported builtins (ranges, sets, "
+                       "singletons, fixed values, aliases, output arrays, search annotations that need not cover all "
+                       "variables); the real binary is run with {-, -a, -f, -a -f} and both optimisation strategies; "
+                       "TLC maps every builtin to spec/Constraints.tla, enumerates the solutions and checks every "
+                       "printed block, completeness under -a, the unsatisfiable marker and optimality of the last block")
+
+
+CHECKS["C13"] = (check_C13, "translation_validation")
